@@ -59,11 +59,12 @@ const (
 	opSnapshot
 	opSnapshotTrunc // user snapshot leaving 1 trailing log: the next joiner needs a snapshot install
 	opRestartFollower
+	opTailCompact // >=2 non-command entries at the log tail (barriers, joins; last one a barrier), then a snapshot leaving 1 trailing log
 	nOps
 )
 
 var opNames = [...]string{"write", "strong", "lin", "join-voter", "join-nonvoter", "remove", "stepdown", "barrier",
-	"noop", "snapshot", "snapshot-trunc", "restart-follower"}
+	"noop", "snapshot", "snapshot-trunc", "restart-follower", "tail-compaction"}
 
 func (k opKind) String() string { return opNames[k] }
 
@@ -95,7 +96,11 @@ func genHist(rt *rapid.T) hist {
 	h := hist{size: rapid.IntRange(1, 3).Draw(rt, "size")}
 	n := rapid.IntRange(1, vstat.Scale(6, 9)).Draw(rt, "nops")
 	for i := 0; i < n; i++ {
-		h.ops = append(h.ops, opKind(rapid.IntRange(0, int(nOps)-1).Draw(rt, "op")))
+		k := rapid.IntRange(0, int(nOps)+1).Draw(rt, "op") // tail-compaction has triple weight
+		if k >= int(nOps) {
+			k = int(opTailCompact)
+		}
+		h.ops = append(h.ops, opKind(k))
 	}
 	return h
 }
@@ -248,6 +253,36 @@ func (e *env) apply(rt *rapid.T, k opKind) (bool, error) {
 			e.trunc = true
 		}
 		return true, nil
+	case opTailCompact:
+		// compacts the log past the newest command entry: the tail then consists of non-command
+		// entries only and everything older lives in the snapshot
+		n := rapid.IntRange(2, 4).Draw(rt, "tailLen")
+		for i := 0; i < n; i++ {
+			join := i < n-1 && rapid.IntRange(0, 2).Draw(rt, "tailJoin") == 0 && len(e.followers(l)) < 2
+			if join {
+				name, id := fmt.Sprintf("n%d", e.next), fmt.Sprintf("id%d", e.next)
+				e.next++
+				nn, err := e.c.Start(name, id)
+				if err != nil {
+					return false, errInconclusive
+				}
+				if err := e.c.Join(nn, l, false); err != nil {
+					return true, err
+				}
+				e.rec.Label("tail-entry:join-nonvoter")
+				continue
+			}
+			if err := l.Store.Barrier(); err != nil {
+				return true, err
+			}
+			e.rec.Label("tail-entry:barrier")
+		}
+		if err := l.Store.Snapshot(1); err != nil {
+			e.rec.Label("tail-compaction:snapshot-refused")
+			return false, nil
+		}
+		e.rec.Label("tail-compaction:done")
+		return true, nil
 	case opRestartFollower:
 		fs := e.followers(l)
 		if len(fs) == 0 {
@@ -342,7 +377,7 @@ func rmdir(d string)         { os.RemoveAll(d) }
 func TestVerif_C38_Hist(t *testing.T) {
 	vnode.QuietLogs()
 	rec := vstat.New(t, "C38", "hist",
-		"rapid histories (1-9 ops from write/strong/lin/join voter+nonvoter/remove/stepdown/barrier/noop/snapshot/truncating snapshot/follower restart) on live 1-3 node clusters, "+
+		"rapid histories (1-9 ops from write/strong/lin/join voter+nonvoter/remove/stepdown/barrier/noop/snapshot/truncating snapshot/follower restart/tail-compaction = 2-4 trailing non-command entries then a snapshot with 1 trailing log) on live 1-3 node clusters, "+
 			"a linearizable read (Query or Request path) after every op with no write in between; non-trivial = at least one membership change, leader change, barrier or snapshot was applied and its read was judged; "+
 			"distinct = initial size + op sequence")
 	rapid.Check(t, func(rt *rapid.T) {
@@ -377,7 +412,9 @@ func TestVerif_C38_Hist(t *testing.T) {
 		}
 		interesting := false
 		var trace []string
-		for _, k := range h.ops {
+		// a first linearizable read (upgraded to a strong read) so that later reads in this term are
+		// served as genuine linearizable reads
+		for _, k := range append([]opKind{opLin}, h.ops...) {
 			if e.c.Lost() > 0 {
 				rec.Label("inconclusive:store-close-timeout")
 				break
@@ -416,7 +453,7 @@ func TestVerif_C38_Hist(t *testing.T) {
 				}
 			}
 			switch k {
-			case opJoinVoter, opJoinNonVoter, opRemove, opStepdown, opBarrier, opSnapshot, opSnapshotTrunc, opRestartFollower:
+			case opJoinVoter, opJoinNonVoter, opRemove, opStepdown, opBarrier, opSnapshot, opSnapshotTrunc, opRestartFollower, opTailCompact:
 				if v != vInconclusive {
 					interesting = true
 				}
